@@ -46,7 +46,7 @@ class C06(HistoryCheck):
     LEVEL = "exploration"
     RUNS = {"quick": 1500, "thorough": 30000}
     PROFILE = {"allow_frozen": False, "allow_class_dnc": False, "allow_init_false": False,
-               "kinds": COLL_KINDS + ["int", "str", "leaf"], "n_attrs": (2, 5)}
+               "kinds": [k for k in COLL_KINDS if k != "list_optleaf"] + ["int", "str", "leaf"], "n_attrs": (2, 5)}
     OPGEN = {"p_bad": 0.12, "p_inplace": 0.45, "p_if_false": 0.0, "p_sentinel": 0.0, "exclude_fns": ["missing"],
              "weights": {"new": 2, "scalar": 1.5, "element": 14, "toplevel": 0.5, "set": 1, "del": 0.7, "get": 0.2,
                          "deepcopy": 0.3}}
@@ -127,6 +127,15 @@ class C06(HistoryCheck):
         if got_c is None or type(got_c).__name__ != want_type:
             ctx.violate(dict(sig, invariant="container_created", got=type(got_c).__name__), {"op": op}, idx)
             return out
+        if akind == "klist":
+            # access by key must land on the element the list holds at that position (the key index is part of the
+            # container the helper edited: a later helper that addresses the element by key starts from it)
+            d = got_c.__dict__
+            stale = [strip_addr(repr(k)) for k, v in d.get("_dict", {}).items()
+                     if not any(v is e for e in d.get("_list", []))]
+            if stale or len(d.get("_dict", {})) != len(d.get("_list", [])):
+                ctx.violate(dict(sig, invariant="keyed_access_agrees_with_positions"),
+                            {"op": op, "stale_keys": stale[:4], "before": strip_addr(repr(before_items))[:200]}, idx)
         mismatch = self.compare(family, akind, expected, got_items, inplace)
         if mismatch:
             ctx.violate(dict(sig, invariant="result_matches_plain_container_model", what=mismatch[0]),
